@@ -137,6 +137,17 @@ class DeterministicOde(BaseOdeModel):
             if 'compileExprAndFormat' in str(value):
                 state[state_name] = None
         
+        # A frozen scipy distribution that samples from numpy's global
+        # generator holds a reference to that generator object, and
+        # copy.deepcopy / pickle hand the copy a private duplicate of it
+        # which np.random.seed no longer reaches.  Note which of the
+        # recorded distributions use the global generator.
+        sp = state.get('_stochasticParam')
+        if isinstance(sp, dict):
+            state['_globalRandomParam'] = [
+                k for k, v in sp.items()
+                if getattr(v, 'random_state', None) is np.random.mtrand._rand]
+        
         return state
     
     def __setstate__(self, state):
@@ -144,6 +155,14 @@ class DeterministicOde(BaseOdeModel):
         Restore the classes state with reset of compile status
         '''
         self.__dict__.update(state)
+        
+        # ... and let them sample from the global generator in the copy too
+        use_global = self.__dict__.pop('_globalRandomParam', None)
+        sp = self.__dict__.get('_stochasticParam')
+        if use_global and isinstance(sp, dict):
+            for k, v in sp.items():
+                if k in use_global and hasattr(v, 'random_state'):
+                    v.random_state = np.random.mtrand._rand
         
         self._hasNewTransition.trip()
 
